@@ -404,6 +404,10 @@ func decimalValueFromString(numStr string, fracDigRequired uint8) (n Number, err
 	dx := strings.Index(s, ".")
 	var fracDig int
 	if dx >= 0 {
+		// There must be a digit on both sides of the decimal point.
+		if dx == 0 || dx == len(s)-1 || s[dx-1] < '0' || s[dx-1] > '9' {
+			return n, fmt.Errorf("%s is not a valid decimal number", numStr)
+		}
 		fracDig = len(s) - 1 - dx
 		// remove first decimal, if dx > 1, will fail ParseInt below
 		s = s[:dx] + s[dx+1:]
